@@ -23,8 +23,9 @@ ASSUMPTIONS = ["CMake 3.25.1 at /usr/bin/cmake is the host; a CMake list cannot 
 BUDGET = {"quick": {"shards": 8, "examples": 25}, "thorough": {"shards": 16, "examples": 150}}
 
 CMAKE = "/usr/bin/cmake"
-PREFIXES = ["pfx", "my prefix", "a.b.c", "préfixe 漢", "p-1", "x y  z", "$dollar", "quo\"te", "back\\slash", "(paren)", "#hash", "N", "OFF", "0", "IGNORE", "a-NOTFOUND", "FALSE", "no", "my-repo", "api-reference"]
-GLOBS = ["*b.cmake", "sub", "**/sub/*", "a?.cmake", "pre*", "x y", "third-party-release"]
+# values that change when CMake evaluates them a second time come first
+PREFIXES = ["${CMAKE_VERSION}", "a\\\\b", "$ENV{HOME}", "@CMAKE_VERSION@", "pfx", "my prefix", "a.b.c", "préfixe 漢", "p-1", "x y  z", "$dollar", "quo\"te", "back\\slash", "(paren)", "#hash", "N", "OFF", "0", "IGNORE", "a-NOTFOUND", "FALSE", "no", "my-repo", "api-reference"]
+GLOBS = ["\\#*", "*\\[wip\\]*", "${x}*", "*b.cmake", "sub", "**/sub/*", "a?.cmake", "pre*", "x y", "third-party-release"]
 
 
 def strategy(tier):
@@ -40,6 +41,8 @@ def strategy(tier):
         "extras": G.weighted((1, st.just([])), (4, st.lists(extra, min_size=1, max_size=3))),
         "prior": st.sampled_from([True, False, False]),
         "from_function": st.sampled_from([True, False, False]),
+        # script mode (cmake -P) or a project configured from a working directory that is not its source directory
+        "via": st.sampled_from(["script", "project", "script"]),
     })
 
 
@@ -112,6 +115,8 @@ def evaluate(case):
         marker = os.path.join(work, "marker")
         driver = os.path.join(work, "driver.cmake")
         with open(driver, "w", encoding="utf-8") as f:
+            # as every project does; without it CMP0053 is OLD and the driver's own quoted arguments would have @VAR@ replaced
+            f.write("cmake_minimum_required(VERSION 3.14)\n")
             f.write(f"set(CMINX_EXECUTABLE {cmake_quote(wrapper)})\n")
             f.write(f"include({cmake_quote(os.path.join(REPO, 'cmake', 'cminx.cmake'))})\n")
             call = "cminx_gen_rst(" + " ".join(cmake_quote(a) for a in [in_arg, out_cm] + extras) + ")\n"
@@ -129,12 +134,23 @@ def evaluate(case):
             res.labels.append("prior-call-into-same-output")
             d0 = os.path.join(work, "driver0.cmake")
             with open(d0, "w", encoding="utf-8") as f:
+                f.write("cmake_minimum_required(VERSION 3.14)\n")
                 f.write(f"set(CMINX_EXECUTABLE {cmake_quote(wrapper)})\n")
                 f.write(f"include({cmake_quote(os.path.join(REPO, 'cmake', 'cminx.cmake'))})\n")
                 f.write("cminx_gen_rst(" + " ".join(cmake_quote(a) for a in [in_arg, out_cm]) + ")\n")
             subprocess.run([CMAKE, "-P", d0], cwd=work, env=dict(env, C19_LOG=log + ".prior"), capture_output=True, text=True)
             S.run_main([in_arg] + (["-r"] if os.path.isdir(in_abs) else []) + ["-o", out_cli], cwd=work, cfgdir=sb.path("cfg"))
-        p = subprocess.run([CMAKE, "-P", driver], cwd=work, env=env, capture_output=True, text=True)
+        if case.get("via") == "project":
+            res.labels.append("project-mode")
+            os.makedirs(os.path.join(work, "proj", "docs"))
+            lines = open(driver, encoding="utf-8").read().split("\n")
+            with open(os.path.join(work, "proj", "CMakeLists.txt"), "w", encoding="utf-8") as f:
+                f.write(lines[0] + "\nproject(docs NONE)\nadd_subdirectory(docs)\n")
+            with open(os.path.join(work, "proj", "docs", "CMakeLists.txt"), "w", encoding="utf-8") as f:
+                f.write("\n".join(lines[1:]))
+            p = subprocess.run([CMAKE, "-S", "proj", "-B", "build"], cwd=work, env=env, capture_output=True, text=True)
+        else:
+            p = subprocess.run([CMAKE, "-P", driver], cwd=work, env=env, capture_output=True, text=True)
         is_dir = os.path.isdir(in_abs)
         want_argv = [in_arg] + (["-r"] if is_dir else []) + extras + ["-o", out_cm]
         logged = [json.loads(l) for l in open(log)] if os.path.exists(log) else []
